@@ -28,11 +28,12 @@ func init() {
 			"GOMAXPROCS in {1,2,4,16}; PRNG delays at the verif yield points. Each history is checked with porcupine against a sequential model (closed flag + set of watched paths; Add=>nil/ErrClosed, Remove=>nil/ErrNonExistentWatch, WatchList=>exactly the set without duplicates, nil iff closed, Close=>nil); any other result has no transition. " +
 			"The same workload runs under the race detector (reports with a frame in the library are violations). A weaker-oracle variant lets mutators delete/rename/recreate the watched directories themselves: only no race/panic/deadlock, result classes, no duplicates and tables==kernel at the final barrier are checked; half of those histories use recursive watches (switched on through the hook) with directories created, removed and renamed below the roots, so that the reader goroutine registers and re-keys watches while the clients call the API (races, panics, deadlocks only). " +
 			"Plus the replace race (4 Watchers in parallel, hundreds of iterations each: delete or rename away the watched file, create a new one under the name, Add it again while an Add spammer and WatchList pollers contend for the lock and the reader works through the old file's notifications; after a sentinel barrier the file must be listed, backed by exactly one kernel mark and report one Chmod). " +
+			"And the remove/add race: Remove(p) and Add(p) started together with the reader parked, 250 iterations; WatchList after both returned must equal WatchList after the reader has worked through everything queued (no call in between), listed <=> kernel mark, a listed path reports a chmod. " +
 			"distinct_nontrivial = distinct histories (by operation/result vector) with >=2 genuinely overlapping operations",
 		Assumptions: []string{"porcupine's verdict Unknown (timeout) is inconclusive", "linearizability is checked for histories in which the watched directories themselves are not deleted (the watch would end asynchronously, which a sequential model cannot place)"},
 		Batches:     func(t string) int { return map[string]int{"quick": 12, "thorough": 48}[t] },
 		RaceBatches: func(t string) int { return map[string]int{"quick": 4, "thorough": 24}[t] },
-		MustObserve: []string{"histories_checked", "histories_with_overlap", "linearizable", "weak_variant_histories", "replace_race_iterations"},
+		MustObserve: []string{"remove_add_race_iterations", "histories_checked", "histories_with_overlap", "linearizable", "weak_variant_histories", "replace_race_iterations"},
 		Run:         runC07,
 	})
 }
@@ -129,6 +130,7 @@ func runC07(c *core.Ctx) {
 	fsnotify.VerifSetHooks(nil)
 	runtime.GOMAXPROCS(16)
 	replaceRace(c, 5000000, "")
+	removeAddRace(c, 5000001)
 	st.points.Range(func(k, v interface{}) bool {
 		c.Hist("yield_point_hits", k.(string), atomic.LoadInt64(v.(*int64)))
 		return true
